@@ -125,6 +125,32 @@ Definition run (req : sexp) : sexp :=
           end
       | _, _, _ => A "bad-request"
       end
+  | L [A "rdfelem"; L nss; A kind; ident; L pairs] =>
+      let px_decl (x : sexp) : option (string * string) :=
+        match x with L [A p; A u] => Some (p, u) | _ => None end in
+      let px_pair (x : sexp) : option (qname * value) :=
+        match x with
+        | L [a; v] => match px_qn a, px_valarg v with
+                      | Some aq, Some va => option_map (fun vv => (aq, vv)) (valarg_value va)
+                      | _, _ => None
+                      end
+        | _ => None
+        end in
+      match px_list px_decl nss, px_qn ident, px_list px_pair pairs with
+      | Some decls, Some q, Some l =>
+          match declare_all nsm_init decls, rdf_element_triples l with
+          | Some m, Some ts =>
+              L [L (map (fun pt => L [A (fst pt); sx_rterm (snd pt)]) ts);
+                 match rdf_read_element None [] (mkB None m [] []) kind (qn_uri q) ts with
+                 | (_, OK r) => L [A "ok"; sx_rec r]
+                 | (_, Raise e) => L [A "raise"; A (exc_name e)]
+                 | (_, OutOfDomain) => A "ood"
+                 end]
+          | Some _, None => A "ood"
+          | None, _ => A "bad-value"
+          end
+      | _, _, _ => A "bad-request"
+      end
   | L [A "dotquote"; A s] => L [A (dot_quote s); A (html_escape s)]
   | L [A "destpath"; A name] =>
       match dest_path name with Some p => L [A "some"; A p] | None => L [A "none"] end
